@@ -19,7 +19,17 @@ class _AbstractSearchString(Function, metaclass=abc.ABCMeta):
         args = []
         for p in self.args:
             if hasattr(p, "get_sql"):
-                args.append('toString("{arg}")'.format(arg=p.get_sql(with_alias=False, **kwargs)))
+                args.append(
+                    "toString({arg})".format(
+                        arg=p.get_sql(
+                            with_alias=False,
+                            with_namespace=with_namespace,
+                            quote_char=quote_char or '"',
+                            dialect=dialect,
+                            **kwargs,
+                        )
+                    )
+                )
             else:
                 args.append(str(p))
 
@@ -64,7 +74,17 @@ class _AbstractMultiSearchString(Function, metaclass=abc.ABCMeta):
         args = []
         for p in self.args:
             if hasattr(p, "get_sql"):
-                args.append('toString("{arg}")'.format(arg=p.get_sql(with_alias=False, **kwargs)))
+                args.append(
+                    "toString({arg})".format(
+                        arg=p.get_sql(
+                            with_alias=False,
+                            with_namespace=with_namespace,
+                            quote_char=quote_char or '"',
+                            dialect=dialect,
+                            **kwargs,
+                        )
+                    )
+                )
             else:
                 args.append(str(p))
 
